@@ -215,8 +215,10 @@ where
     let lsh: usize = (base2k - k_rem) % base2k;
 
     // All limbs of a that would fall outside of the limbs of res are discarded,
-    // but the carry still need to be computed.
-    for j in 0..steps {
+    // but the carry still need to be computed. At most all limbs of res are discarded.
+    let res_end: usize = steps.min(size);
+
+    for j in 0..res_end {
         if j == 0 {
             ZNXARI::znx_normalize_first_step_carry_only(base2k, lsh, res.at(res_col, size - j - 1), carry);
         } else {
@@ -224,20 +226,29 @@ where
         }
     }
 
+    // If no limbs were discarded, initialize carry to zero
+    if res_end == 0 {
+        ZNXARI::znx_zero(carry);
+    }
+
     // Continues with shifted normalization
-    for j in 0..size - steps {
-        ZNXARI::znx_copy(tmp, res.at(res_col, size - steps - j - 1));
+    for j in 0..size - res_end {
+        ZNXARI::znx_copy(tmp, res.at(res_col, size - res_end - j - 1));
         ZNXARI::znx_normalize_middle_step_assign(base2k, lsh, tmp, carry);
         ZNXARI::znx_copy(res.at_mut(res_col, size - j - 1), tmp);
     }
 
-    // Propagates carry on the rest of the limbs of res
-    for j in 0..steps {
+    // Zeroes the top limbs, then propagates the carry over them,
+    // from the least significant (res_end - 1) to the most significant (0).
+    for j in 0..res_end {
         ZNXARI::znx_zero(res.at_mut(res_col, j));
-        if j == 0 {
-            ZNXARI::znx_normalize_final_step_assign(base2k, lsh, res.at_mut(res_col, steps - j - 1), carry);
+    }
+
+    for j in 0..res_end {
+        if j == res_end - 1 {
+            ZNXARI::znx_normalize_final_step_assign(base2k, lsh, res.at_mut(res_col, res_end - j - 1), carry);
         } else {
-            ZNXARI::znx_normalize_middle_step_assign(base2k, lsh, res.at_mut(res_col, steps - j - 1), carry);
+            ZNXARI::znx_normalize_middle_step_assign(base2k, lsh, res.at_mut(res_col, res_end - j - 1), carry);
         }
     }
 }
